@@ -110,21 +110,21 @@ const (
 	KBarCount = 5
 	KBarSEID  = 6
 
-	KUR       = 5
-	KUrURRID  = 3
-	KUrTrig   = 4
-	KUrSeqn   = 5
-	KUrVol    = 6
-	KUrQRef   = 7
-	KUrStart  = 8
-	KUrEnd    = 9
-	KUrSEID   = 10
-	KBufTop   = 1
-	KRepTop   = 2
-	KBufPkt   = 4
-	KBufID    = 5
-	KBufSEID  = 6
-	KBufAct   = 7
+	KUR      = 5
+	KUrURRID = 3
+	KUrTrig  = 4
+	KUrSeqn  = 5
+	KUrVol   = 6
+	KUrQRef  = 7
+	KUrStart = 8
+	KUrEnd   = 9
+	KUrSEID  = 10
+	KBufTop  = 1
+	KRepTop  = 2
+	KBufPkt  = 4
+	KBufID   = 5
+	KBufSEID = 6
+	KBufAct  = 7
 )
 
 type kindInfo struct {
@@ -148,18 +148,18 @@ var getCmd = map[uint8]kindInfo{
 
 // KReq is one generic-netlink request as recorded by the simulated kernel.
 type KReq struct {
-	Idx    int
-	T      int64
-	Conn   string
-	Cmd    uint8
-	Flags  uint16
-	Seq    uint32
-	Attrs  []*NLA
-	Errno  int
-	Update bool
-	Key    RuleKey
-	NRep   int // reports in the reply
-	NAsked int // URRs asked for (GET_MULTI_REPORTS)
+	Idx     int
+	T       int64
+	Conn    string
+	Cmd     uint8
+	Flags   uint16
+	Seq     uint32
+	Attrs   []*NLA
+	Errno   int
+	Update  bool
+	Key     RuleKey
+	NRep    int // reports in the reply
+	NAsked  int // URRs asked for (GET_MULTI_REPORTS)
 	Serials []uint64
 }
 
@@ -189,15 +189,15 @@ type Kernel struct {
 	serial  uint64
 	Issued  map[uint64]*KReport
 	// knobs
-	Latency    func(r *KReq) time.Duration
-	FailAt     map[int]syscall.Errno // request index -> error (request not applied)
-	FailAfter  map[int]syscall.Errno // request index -> error returned although applied
-	UpdReport  bool                  // ADD_URR|REPLACE answers with a report
-	StrictMulti bool                 // GET_MULTI_REPORTS fails when any URR is missing
-	KeepLog    bool
-	NReq       int64
-	OnReq      func(r *KReq) // called (kernel goroutine, lock held) for every request
-	conns      []*SimConn
+	Latency     func(r *KReq) time.Duration
+	FailAt      map[int]syscall.Errno // request index -> error (request not applied)
+	FailAfter   map[int]syscall.Errno // request index -> error returned although applied
+	UpdReport   bool                  // ADD_URR|REPLACE answers with a report
+	StrictMulti bool                  // GET_MULTI_REPORTS fails when any URR is missing
+	KeepLog     bool
+	NReq        int64
+	OnReq       func(r *KReq) // called (kernel goroutine, lock held) for every request
+	conns       []*SimConn
 }
 
 func NewKernel() *Kernel {
